@@ -4,6 +4,7 @@
   "apply a prefix"); helper lemmas: TmVerif/Master/Lemmas.lean.
 -/
 import TmVerif.Master.Lemmas
+import TmVerif.Master.IntegrityLemmas
 
 namespace TmVerif.Master
 open TmVerif.Sched
@@ -141,6 +142,57 @@ theorem C10_prefix_state (m m' : MState) (order : List Nat) (qs : List (List (Na
   subst h1 h2
   exact C10_prefix m.cell c' m.store order qs ch ws' c'.now hpre hw k
 
+/-- **C10, "no stored state reachable this way makes the master fail its own integrity check".**
+    On a store that agrees with the model in existence — what `C09_cycle_where` gives after every
+    cycle and `C09_init_where_partial` after start-up — `check_placement_integrity` finds no
+    duplicate, repairs nothing, and neither of its `assert`s (nor the `KeyError`) is reached.
+    `StoreWF`: `get_children` returns distinct names and a record has its parent node;
+    `hids`: instance names are unique in the cell (`InvCap`). -/
+theorem C10_integrity_ok (c : Cell) (st : Store) (hwf : StoreWF st) (hids : (c.apps.map (·.id)).Nodup)
+    (hag : AgreeWhere c st) : checkIntegrity c st = ([], none) := by
+  have hnd := visitKeys_apps_nodup hwf hag
+  obtain ⟨h1, h2, h3⟩ := visit_fresh c (visitKeys st) ⟨[], [], none⟩ rfl rfl hnd (fun _ _ p hp => by cases hp)
+  simp only at h1 h2 h3
+  simp only [checkIntegrity, checkIntegrity_fold]
+  generalize (visitKeys st).foldl (fun is k => integrityVisit c k.1 is k.2) ⟨[], [], none⟩ = is at h1 h2 h3 ⊢
+  rw [h1]
+  simp only [h2]
+  split
+  · rfl
+  · rename_i hneg
+    exfalso
+    apply hneg
+    apply List.all_eq_true.mpr
+    intro a ha
+    cases hs : a.server with
+    | none => rfl
+    | some s =>
+      simp only
+      rw [h3, List.nil_append]
+      -- the model places `a` on `s`, hence the record and its visit
+      have happ : c.app? a.id = some a := by
+        unfold Cell.app?
+        have := find?_key_unique (·.id) c.apps hids a ha
+        simpa using this
+      have hk : HasKey st s a.id := (hag s a.id).mpr ⟨a, happ, hs⟩
+      have hsrv : s ∈ st.servers := by
+        obtain ⟨r, hr, e1, _⟩ := hk
+        have := hwf.parent r hr
+        rw [e1] at this
+        unfold Store.servers
+        rw [mem_sortNat]
+        simp only [Store.hasNode, List.any_eq_true, decide_eq_true_eq] at this
+        obtain ⟨p, hp, e⟩ := this
+        exact List.mem_map.mpr ⟨p, hp, e⟩
+      have hmem : (a.id, s) ∈ (visitKeys st).map (fun k => (k.2, k.1)) :=
+        List.mem_map.mpr ⟨(s, a.id), mem_visitKeys.mpr ⟨hsrv, hk⟩, rfl⟩
+      have hnd' : (((visitKeys st).map (fun k => (k.2, k.1))).map (·.1)).Nodup := by
+        rw [List.map_map]; exact hnd
+      have := find?_of_nodup_fst hnd' hmem
+      simp only at this
+      rw [this]
+      simp
+
 /-! ### concrete fixtures (non-vacuity examples and finding witnesses of C09 / C10) -/
 namespace Ex
 
@@ -176,6 +228,18 @@ example : (∀ r ∈ (Ex.storeOn 1).recs, placedOn Ex.downCell r.app r.srv) ∧
       ws = [.delRec 1 10, .putRec 2 10 none none (some 105), .saveBlob]) :=
   ⟨recsPlacedB_sound (by decide +kernel), (getOk (rescheduleW Ex.downCell [10] Ex.q10 [])).1,
    (getOk (rescheduleW Ex.downCell [10] Ex.q10 [])).2, eq_ok_pair (by decide +kernel), by decide +kernel⟩
+
+/-- Non-vacuity of `C10_integrity_ok`: the concrete agreeing pair satisfies all hypotheses. -/
+example : StoreWF (Ex.storeOn 1) ∧ (Ex.downCell.apps.map (·.id)).Nodup ∧ AgreeWhere Ex.downCell (Ex.storeOn 1) :=
+  ⟨⟨by decide +kernel, fun sid => by
+      have h : ∀ sid, (Ex.storeOn 1).appsOn sid = if sid = 1 then [10] else [] := by
+        intro sid
+        by_cases h : sid = 1
+        · subst h; decide +kernel
+        · simp only [h, ↓reduceIte]
+          simp [Store.appsOn, Ex.storeOn, h, sortNat, Ne.symm h]
+      rw [h sid]; split <;> simp,
+    by decide +kernel⟩, by decide +kernel, agreeWhere_of_B (by decide +kernel) (by decide +kernel)⟩
 
 /-- **Witness of finding F11** (`init_schedule` publishes in ONE pass): from a store that agrees with
     the restored model, the start-up cycle moves instance 10 from server 2 to server 1; the writes
